@@ -442,9 +442,11 @@ func (c *FuncCtx) evalBinary(st *State, x *ast.BinaryExpr) *Val {
 	switch x.Op {
 	case token.LAND:
 		l := c.eval(st, x.X)
+		savedGuard := append([]string(nil), st.guard...)
 		st.guard = append(st.guard, l.S)
 		r := c.eval(st, x.Y)
-		st.guard = st.guard[:len(st.guard)-1]
+		// (an inlined callee in x.Y may have joined states, which resets the guard stack)
+		st.guard = savedGuard
 		res := &Val{T: tBool, S: mkAnd(l.S, r.S), Sort: "Bool"}
 		if l.SA != "" || r.SA != "" {
 			res.SA = mkAnd(l.forAssume(), r.forAssume())
@@ -452,9 +454,10 @@ func (c *FuncCtx) evalBinary(st *State, x *ast.BinaryExpr) *Val {
 		return res
 	case token.LOR:
 		l := c.eval(st, x.X)
+		savedGuard := append([]string(nil), st.guard...)
 		st.guard = append(st.guard, mkNot(l.S))
 		r := c.eval(st, x.Y)
-		st.guard = st.guard[:len(st.guard)-1]
+		st.guard = savedGuard
 		res := &Val{T: tBool, S: mkOr(l.S, r.S), Sort: "Bool"}
 		if l.SA != "" || r.SA != "" {
 			res.SA = mkOr(l.forAssume(), r.forAssume())
